@@ -763,7 +763,11 @@ def r_argmut(P, R):
             if len(s.targets) == 1 and isinstance(
                     s.targets[0], ast.Name) and isinstance(
                         s.value, ast.Name) and s.value.id in alias:
-                if s.targets[0].id not in params:
+                # an alias only if this is the one binding of the name
+                # (`d = definitions` in one arm and `d = dict()` in
+                # another is not an alias where the dict is filled)
+                if s.targets[0].id not in params and len(
+                        au.assignments_to(f.node, s.targets[0].id)) == 1:
                     alias[s.targets[0].id] = alias[s.value.id]
         # a parameter rebound to a fresh object before the edit is the
         # function's own
@@ -1225,6 +1229,11 @@ def r_unbound(P, R):
                 if not isinstance(lp, (ast.For, ast.While)):
                     continue
                 n += 1
+                # `for ...: if c: break` / `else: return|raise`: what
+                # follows the loop is reached through the `break` only
+                if lp.orelse and isinstance(
+                        lp.orelse[-1], (ast.Return, ast.Raise)):
+                    continue
                 # a loop over a non-empty literal always runs
                 if isinstance(lp, ast.For) and isinstance(
                         lp.iter, (ast.Tuple, ast.List)) and lp.iter.elts:
